@@ -8,6 +8,7 @@ import (
 	"verif/harness/model"
 	"verif/harness/simenv"
 
+	"github.com/ozontech/seq-db/verifsim"
 	"github.com/ozontech/seq-db/verifsim/simos"
 )
 
@@ -78,11 +79,23 @@ func genC07(seed uint64, tier Tier) *Case {
 		}
 		clients = append(clients, ops)
 	}
+	// a quarter of the cases: some of the readers' searches are built to fail inside the fractions (error on one
+	// fraction, cancellation of its siblings); few search workers, so that anything such a request keeps is missed soon
+	rf := verifsim.NewSplitMix(seed ^ 0xfa11).Split("c07-failing")
+	failing := rf.Bool(0.25)
+	if failing {
+		c.Knobs.SearchWorkers = rf.Range(2, 3)
+	}
 	for rd := 0; rd < readers; rd++ {
 		var ops []Op
 		n := g.r.Range(3, 10*scale)
 		for i := 0; i < n; i++ {
-			ops = append(ops, g.readerOp())
+			op := g.readerOp()
+			if failing && op.Kind == "search" && rf.Bool(0.4) {
+				op.S = &Search{Q: &model.Q{Op: "all"}, From: 0, To: math.MaxInt64, Size: 10, Desc: true, Fails: true,
+					Aggs: []simenv.AggReq{{Func: "sum", Field: "svc"}}}
+			}
+			ops = append(ops, op)
 			if g.r.Bool(0.4) {
 				ops = append(ops, Op{Kind: "sleep", Ms: g.r.Range(1, 150)})
 			}
